@@ -91,6 +91,38 @@ def in_property_grammar(d) -> bool:
     return True
 
 
+def frag_pair(a, b) -> bool:
+    """transcription of coq/Schema/SubtypeComplete.v frag_pair: the fragment on which the check decides
+    inclusion (C13_refused_iff_witness_fragment)"""
+    def atom(d):
+        return (d[0] == "prim" and d[1]) or d[0] in ("lit", "none")
+
+    def atoms_of(d):
+        return list(d[1]) if d[0] == "union" else [d]
+
+    def frag(d):
+        return all(atom(x) for x in atoms_of(d))
+
+    def has(f, d):
+        return any(f(x) for x in atoms_of(d))
+
+    def numlit(x):
+        return x[0] == "lit" and any(not isinstance(v, str) for v in x[1])
+
+    def strlit(x):
+        return x[0] == "lit" and any(isinstance(v, str) for v in x[1])
+
+    def numprim(x):
+        return x[0] == "prim" and x[1] and x[2] != "str"
+
+    def sstr(x):
+        return x[0] == "prim" and x[1] and x[2] == "str"
+
+    apart = (not (has(numlit, a) and has(numprim, b)) and not (has(strlit, a) and has(sstr, b))
+             and not (has(numprim, a) and has(numlit, b)) and not (has(sstr, a) and has(strlit, b)))
+    return frag(a) and frag(b) and ((a[0] == "lit") == (b[0] == "lit")) and apart
+
+
 def mergeable(d, allow_none=True) -> bool:
     """transcription of schema.partial._check_type_mergeable"""
     k = d[0]
@@ -175,7 +207,7 @@ def strings_in(v, acc: set):
 
 
 CORPUS: List[Any] = [
-    None, True, False, 0, 1, 2, -1, 0.0, 1.0, 1.5, 2.0, -0.5,
+    None, True, False, 0, 1, 2, -1, 0.0, 0.5, 1.0, 1.5, 2.0, -0.5,
     "", " ", "\t", "a", "b", " a ", "a ", "ab", "1", " 1 ", "+1", "-1", "1_0", "1__0", "1.5", "1.", ".5", ".",
     "yes", "TRUE", "t", " true", "a/b", "ff", "sha256:ff", "True",
     [], [1], [True], [1.0], ["a"], [" "], [" a "], [1, "a"], [1, 1], [1, True], [[1]], [["a", 1]], ["ab"], [None],
@@ -984,6 +1016,7 @@ def run(ctx: vlib.Ctx):
     msub = vlib.run_model("c13", scases, chunk=max(8, len(scases) // (vlib.NPROC * 2)))
     evals += len(rows) * len(all_b)
     n_sub = 0
+    n_frag_refused = n_frag_admitted = 0
     witnessed = 0
     oracle_reported = False
     for (ann, i), mrow in zip(rows, msub):
@@ -992,6 +1025,16 @@ def run(ctx: vlib.Ctx):
             if cell != mc[0] and len(disagreements) < 30:
                 disagreements.append({"kind": "is_subtype", "a": [ann, types[i]], "b": [annb, types[j]],
                                       "impl": cell, "model": mc[0]})
+            if cell == "F" and not ann and not annb and frag_pair(types[i], types[j]):
+                # completeness on the fragment (code alone): a refused pair has a corpus witness
+                n_frag_refused += 1
+                if not any(ok and not acc[j][vkey[d]][0] for ok, d in acc[i]) and len(disagreements) < 30:
+                    disagreements.append({"kind": "fragment-completeness", "a": types[i], "b": types[j],
+                                          "note": "is_subtype refuses a fragment pair but no corpus value is accepted by "
+                                                  "the child type and rejected by the parent type "
+                                                  "(C13_refused_iff_witness_fragment)"})
+            if cell == "T" and not ann and not annb and frag_pair(types[i], types[j]):
+                n_frag_admitted += 1
             if cell != "T":
                 continue
             n_sub += 1
@@ -1186,6 +1229,7 @@ def run(ctx: vlib.Ctx):
     cov["input_distribution"] = {
         "types": len(types), "values": len(values), "values_added_by_dump_closure": len(extra_vals),
         "accept_cells": {"accepted": n_accept, "rejected": n_reject},
+        "fragment_pairs_refused_with_witness": n_frag_refused, "fragment_pairs_admitted": n_frag_admitted,
         "pairs": len(rows) * len(all_b), "pairs_subtype_true": n_sub, "pairs_with_witness_outside_grammar": witnessed,
         "chains": nch, "chains_accepted": n_ch_ok, "chains_accepted_with_override_in_non_plugin_middle": n_ch_mid_override,
         "chain_objects": n_ch_rows, "chain_objects_leaf_accepted": n_ch_leaf_acc,
